@@ -47,3 +47,60 @@ func Harness_C10_lengthBoundaries() {
 	vAssert(e3 == nil && string(again) == string(f), "marshalling the unmarshalled value reproduces the bytes")
 	vReach("roundtrip")
 }
+
+type c10Exp5 struct {
+	V []byte `asn1:"explicit,tag:5"`
+}
+type c10Exp31 struct {
+	V []byte `asn1:"explicit,tag:31"`
+}
+type c10Exp200 struct {
+	V []byte `asn1:"explicit,tag:200"`
+}
+type c10Exp16384 struct {
+	V []byte `asn1:"explicit,tag:16384"`
+}
+
+// Harness_C10_explicitHeaders: an explicitly tagged OCTET STRING with a low, a one-octet-high, a
+// two-octet-high and a three-octet-high tag number and contents of 1, 130, 300 and 65536 bytes
+// (so that the wrapper header and the inner header take 2 to 8 octets each): Marshal emits
+// upstream's bytes, and its output decodes in strict mode to the same value.
+//
+//verif:opt maxpaths=200 reach=same
+func Harness_C10_explicitHeaders() {
+	n := []int{1, 130, 300, 65536}[vChoice("content-length", 4)]
+	b := make([]byte, n)
+	b[0], b[n-1] = vU8("first"), vU8("last")
+	var f, s []byte
+	var e1, e2, e3 error
+	var back []byte
+	switch vChoice("tag-number", 4) {
+	case 0:
+		f, e1 = Marshal(c10Exp5{b})
+		s, e2 = stdasn1.Marshal(c10Exp5{b})
+		var v c10Exp5
+		_, e3 = Unmarshal(f, &v)
+		back = v.V
+	case 1:
+		f, e1 = Marshal(c10Exp31{b})
+		s, e2 = stdasn1.Marshal(c10Exp31{b})
+		var v c10Exp31
+		_, e3 = Unmarshal(f, &v)
+		back = v.V
+	case 2:
+		f, e1 = Marshal(c10Exp200{b})
+		s, e2 = stdasn1.Marshal(c10Exp200{b})
+		var v c10Exp200
+		_, e3 = Unmarshal(f, &v)
+		back = v.V
+	case 3:
+		f, e1 = Marshal(c10Exp16384{b})
+		s, e2 = stdasn1.Marshal(c10Exp16384{b})
+		var v c10Exp16384
+		_, e3 = Unmarshal(f, &v)
+		back = v.V
+	}
+	vAssert(e1 == nil && e2 == nil && string(f) == string(s), "same DER as upstream for the wrapper and the wrapped header")
+	vAssert(e3 == nil && len(back) == n && back[0] == b[0] && back[n-1] == b[n-1], "its own output decodes in strict mode to the same value")
+	vReach("same")
+}
